@@ -5,7 +5,9 @@
 namespace c10 { en::Recorder R; }
 using c10::R;
 void c10_all_chunks();
+void c10_deep_chunks();
 extern const long c10_generated_terms;
+extern const long c10_generated_deep_terms;
 
 struct M {
   MAKE_MOCK1(f, void(int));
@@ -17,6 +19,7 @@ int main(int argc, char** argv) {
   using namespace trompeloeil;
   R.prop = "C10"; R.args(argc, argv);
   c10_all_chunks();
+  if (R.thorough()) c10_deep_chunks();  // depth-3 terms
 
   // ---- strings: eq/ne/lt/le/gt/ge on std::string arguments, every operand x every argument ----
   const std::vector<std::string> strs = {"", "a", "ab", "b", "B"};
@@ -81,7 +84,7 @@ int main(int argc, char** argv) {
     VIA_MOCK("none_of($0,$1)", none_of(a, b)) VIA_MOCK("$0", a) VIA_MOCK("_", _) VIA_MOCK("neT($0)", ne<int>(a)) VIA_MOCK("!any_of(ltT($0),$1)", !any_of(lt<int>(a), b))
 #undef VIA_MOCK
   }
-  R.notes.push_back("generated terms: " + std::to_string(c10_generated_terms));
+  R.notes.push_back("generated terms: " + std::to_string(c10_generated_terms) + " of depth <= 2 (both tiers), " + std::to_string(c10_generated_deep_terms) + " of depth 3 (thorough tier only)");
   return R.finish("every matcher term up to depth 2 (leaves: _, ANY, eq/ne/lt/le/gt/ge duck-typed and typed, plain values; !m; *m on raw/unique/shared pointers incl. null; any_of/all_of/none_of with 1-3 operands; MEMBER_IS) x every operand value in {-1..3} x every argument value in {-1..3}; strings {\"\",a,ab,b,B}; 9 regular expressions x 8 subjects incl. null and empty; param_matches compared with the denotational evaluator; a systematic slice also through a real mock call",
                   "[\"reference evaluator in engines/enum/c10_scalar.hpp\", \"value domain {-1,0,1,2,3}\", \"term depth <= 2\"]");
 }
